@@ -71,7 +71,9 @@ func be32(v *big.Int) []byte {
 func (g *Gen) scalarVal() *big.Int {
 	r := g.r
 	var v *big.Int
-	switch r.Pick([]float64{2, 2, 3, 3, 4, 2, 1, 3, 2, 2}) {
+	switch r.Pick([]float64{2, 2, 3, 3, 4, 2, 1, 3, 2, 2, 1.5}) {
+	case 10:
+		return g.montScalar()
 	case 9:
 		// byte-level structure that neither edge values nor uniform draws have
 		b := r.Bytes(32)
@@ -153,6 +155,158 @@ func (g *Gen) scalarVal() *big.Int {
 	return v.Mod(v, model.N)
 }
 
+// The library keeps field elements and scalars in Montgomery form (value times
+// 2^256 modulo the modulus, four 64-bit limbs). A value whose *internal*
+// representation is small, just below the modulus, or has zero / all-ones limbs
+// is where a dropped carry or a final conditional subtraction decided on the
+// wrong flag shows — and such values look perfectly random from outside. The
+// generator therefore also draws values of the form k·2^-256 mod m for
+// structured k. (This biases inputs only; verdicts never depend on it.)
+var (
+	rInvP = new(big.Int).ModInverse(two256, model.P)
+	rInvN = new(big.Int).ModInverse(two256, model.N)
+)
+
+// structuredK returns an integer in [0, m) with the structure described above.
+// gapBits is the bit length of 2^256 - m.
+func (g *Gen) structuredK(m *big.Int, gapBits int) *big.Int {
+	r := g.r
+	k := new(big.Int)
+	small := func() *big.Int {
+		v := new(big.Int).SetBytes(r.Bytes(1 + (gapBits+8)/8))
+		return v.Rsh(v, uint(r.N(gapBits+8)))
+	}
+	switch r.N(5) {
+	case 0:
+		k = small()
+	case 1:
+		k.Sub(m, small())
+	case 2:
+		k.Sub(two256, small()) // reduced below: 2^256 - j - m, just above the gap
+	case 3:
+		for i := 0; i < 4; i++ {
+			var limb uint64
+			switch r.N(4) {
+			case 0:
+				limb = 0
+			case 1:
+				limb = ^uint64(0)
+			case 2:
+				limb = 1 << uint(r.N(64))
+			default:
+				limb = r.U64()
+			}
+			k.Lsh(k, 64)
+			k.Or(k, new(big.Int).SetUint64(limb))
+		}
+	default:
+		k = big.NewInt(int64(r.N(16)))
+	}
+	return k.Mod(k, m)
+}
+
+// montScalar returns a scalar whose Montgomery representation is structured,
+// or which combines with a scalar the task already holds into such a value.
+func (g *Gen) montScalar() *big.Int {
+	r := g.r
+	v := g.structuredK(model.N, 129)
+	v.Mul(v, rInvN)
+	v.Mod(v, model.N)
+	if len(g.m.MS) > 0 && r.P(0.4) {
+		if a := g.m.MS[r.N(len(g.m.MS))]; a != nil && a.Sign() != 0 {
+			if r.P(0.5) {
+				v.Sub(v, a) // a + result has the structured representation
+			} else {
+				v.Mul(v, new(big.Int).ModInverse(a, model.N)) // a * result has it
+			}
+			v.Mod(v, model.N)
+		}
+	}
+	return v
+}
+
+// cubeRootP returns a cube root of v modulo p when one exists
+// (p = 7 mod 9: v^((p+2)/9) is one).
+func cubeRootP(v *big.Int) (*big.Int, bool) {
+	e := new(big.Int).Add(model.P, big.NewInt(2))
+	e.Div(e, big.NewInt(9))
+	x := new(big.Int).Exp(v, e, model.P)
+	c := new(big.Int).Mul(x, x)
+	c.Mul(c, x)
+	c.Mod(c, model.P)
+	return x, c.Cmp(new(big.Int).Mod(v, model.P)) == 0
+}
+
+// montPoint returns a curve point one of whose coordinates, or their square
+// or cube (the intermediate values of decoding and of the group law), has a
+// structured Montgomery representation.
+func (g *Gen) montPoint() model.Point {
+	r := g.r
+	seven := big.NewInt(7)
+	fromX := func(x *big.Int) (model.Point, bool) {
+		rhs := new(big.Int).Mul(x, x)
+		rhs.Mul(rhs, x)
+		rhs.Add(rhs, seven)
+		rhs.Mod(rhs, model.P)
+		y, ok := model.SqrtP(rhs)
+		if !ok {
+			return model.Point{}, false
+		}
+		if r.P(0.5) {
+			y.Sub(model.P, y)
+		}
+		return model.Point{X: x, Y: y}, true
+	}
+	fromY2 := func(y2 *big.Int) (model.Point, bool) {
+		y, ok := model.SqrtP(y2)
+		if !ok || y.Sign() == 0 {
+			return model.Point{}, false
+		}
+		x, ok := cubeRootP(new(big.Int).Sub(y2, seven))
+		if !ok {
+			return model.Point{}, false
+		}
+		if r.P(0.5) {
+			y.Sub(model.P, y)
+		}
+		return model.Point{X: x, Y: y}, true
+	}
+	fam := r.N(5)
+	for try := 0; try < 48; try++ {
+		v := g.structuredK(model.P, 33)
+		if try > 0 && v.BitLen() < 200 {
+			v.Add(v, big.NewInt(int64(try))) // walk on from the same neighbourhood
+		}
+		v.Mul(v, rInvP)
+		v.Mod(v, model.P)
+		var pt model.Point
+		ok := false
+		switch fam {
+		case 0: // x itself
+			pt, ok = fromX(v)
+		case 1: // y itself
+			pt, ok = fromY2(new(big.Int).Mod(new(big.Int).Mul(v, v), model.P))
+			if ok && pt.Y.Cmp(v) != 0 {
+				pt.Y.Sub(model.P, pt.Y)
+			}
+		case 2: // y^2 = x^3 + 7
+			pt, ok = fromY2(v)
+		case 3: // x^2
+			if x, sq := model.SqrtP(v); sq {
+				pt, ok = fromX(x)
+			}
+		default: // x^3
+			if x, cb := cubeRootP(v); cb {
+				pt, ok = fromX(x)
+			}
+		}
+		if ok && model.OnCurve(pt.X, pt.Y) {
+			return pt
+		}
+	}
+	return g.cachedPoint()
+}
+
 // badScalarBytes returns an input the scalar decoder must reject.
 func (g *Gen) badScalarBytes() []byte {
 	r := g.r
@@ -210,7 +364,9 @@ func (g *Gen) pointVal() model.Point {
 		cur = g.m.ME[r.N(len(g.m.ME))]
 		have = !cur.IsInf()
 	}
-	switch r.Pick([]float64{3, 2, 2, 1, 1, 1, 1, 2, 0.7}) {
+	switch r.Pick([]float64{3, 2, 2, 1, 1, 1, 1, 2, 0.7, 0.7}) {
+	case 9:
+		return g.montPoint()
 	case 8:
 		return g.structuredXPoint()
 	case 0:
